@@ -6,12 +6,14 @@
    Operations travel as tuples <<op, ow, ao, stop, lr, bound>> (booleans as 0/1). *)
 EXTENDS HistoryGenLib, Json, IOUtils
 Cases == {[par |-> x[1], t |-> x[2], s |-> x[3]] : x \in Triples}
+\* one initial state per graph (cheap), its cases as successor states: TLC's workers share the law evaluation
 VARIABLE c
-Init == c \in Cases
-Next == UNCHANGED c
-LawsHoldOnSpec == \A o \in OpsOf(c.par, c.t, c.s) : C21Failed(c.par, c.t, c.s, o, SpecObs(c.par, c.t, c.s, o)) = {}
+Init == c \in {[par |-> P, t |-> -1] : P \in Graphs2}
+Next == c.t = -1 /\ c' \in {[par |-> c.par, t |-> p[1], s |-> p[2]] : p \in PairsOf(c.par)}
+IsCase == c.t # -1
+LawsHoldOnSpec == IsCase => \A o \in OpsOf(c.par, c.t, c.s) : C21Failed(c.par, c.t, c.s, o, SpecObs(c.par, c.t, c.s, o)) = {}
 \* the cheap ancestry operators of History mean the same as the library's (checked at the small bounds)
-FastAgreesWithDag ==
+FastAgreesWithDag == IsCase =>
     LET P == c.par
         R == DOMAIN P \cup Ghosts(P) \cup {Null}
     IN /\ \A r \in R : Anc0(P, r) = (IF r = Null THEN {} ELSE Ancestry(P, r))
@@ -21,13 +23,20 @@ FastAgreesWithDag ==
        /\ Covers(P, c.t, c.s) = (Anc0(P, c.t) \cup Anc0(P, c.s) = DOMAIN P)
 \* anti-vacuity: TLC must reach these
 Outs(x) == {<<o, OpOut(x.par, x.t, x.s, o)>> : o \in OpsOf(x.par, x.t, x.s)}
-WitnessDivergedGhost == ~(Ghosts(c.par) # {} /\ \E p \in Outs(c) : p[1].op = "pull" /\ p[2].exc = "DivergedBranches")
-WitnessAppendRefusal == ~(\E p \in Outs(c) : p[1].op = "pull" /\ ~p[1].ow /\ p[2].exc = "AppendRevisionsOnlyViolation")
-WitnessStopMoves == ~(\E p \in Outs(c) : p[1].op = "push" /\ p[1].stop # Null /\ p[2].tip = p[1].stop /\ p[2].tip # c.t
-                                         /\ IsMerge(c.par, p[2].tip))
-WitnessNoOp == ~(\E p \in Outs(c) : p[1].op = "pull" /\ ~p[1].ow /\ p[2].exc = "" /\ p[2].tip = c.t /\ c.s # c.t /\ c.s # Null)
+WDivergedGhost(x) == Ghosts(x.par) # {} /\ \E p \in Outs(x) : p[1].op = "pull" /\ p[2].exc = "DivergedBranches"
+WAppendRefusal(x) == \E p \in Outs(x) : p[1].op = "pull" /\ ~p[1].ow /\ p[2].exc = "AppendRevisionsOnlyViolation"
+WStopMoves(x) == \E p \in Outs(x) : p[1].op = "push" /\ p[1].stop # Null /\ p[2].tip = p[1].stop /\ p[2].tip # x.t
+                                         /\ IsMerge(x.par, p[2].tip)
+WNoOp(x) == \E p \in Outs(x) : p[1].op = "pull" /\ ~p[1].ow /\ p[2].exc = "" /\ p[2].tip = x.t /\ x.s # x.t /\ x.s # Null
 OpTuple(o) == <<o.op, B2N(o.ow), B2N(o.ao), o.stop, B2N(o.lr), B2N(o.bound)>>
 CaseRow(x) == LET ops == SetToSeq(OpsOf(x.par, x.t, x.s)) IN [c |-> x, ops |-> [i \in DOMAIN ops |-> OpTuple(ops[i])]]
+\* anti-vacuity: each of these must be reached by some case (checked in the export run: VF_WITNESSES)
+WitnessesReached ==
+    /\ \E x \in Cases : WDivergedGhost(x)
+    /\ \E x \in Cases : WAppendRefusal(x)
+    /\ \E x \in Cases : WStopMoves(x)
+    /\ \E x \in Cases : WNoOp(x)
 Export == JsonSerialize(IOEnv.VF_OUT, SetToSeq({CaseRow(x) : x \in Sample(Cases)}))
 ASSUME IF "VF_OUT" \in DOMAIN IOEnv THEN Export ELSE TRUE
+ASSUME IF "VF_WITNESSES" \in DOMAIN IOEnv THEN WitnessesReached ELSE TRUE
 =============================================================================
